@@ -179,6 +179,43 @@ impl Script {
     }
 }
 
+fn ghost_text(text: &str) -> String {
+    format!("{text} ALLOW FILTERING")
+}
+
+/// plan = exactly one node (by index in the mock's node list)
+#[derive(Debug)]
+struct OnlyNode(uuid::Uuid);
+impl scylla::policies::load_balancing::LoadBalancingPolicy for OnlyNode {
+    fn pick<'a>(
+        &'a self,
+        _request: &'a scylla::policies::load_balancing::RoutingInfo,
+        cluster: &'a scylla::cluster::ClusterState,
+    ) -> Option<(scylla::cluster::NodeRef<'a>, Option<scylla::routing::Shard>)> {
+        cluster.get_nodes_info().iter().find(|n| n.host_id == self.0).map(|n| (n, None))
+    }
+    fn fallback<'a>(
+        &'a self,
+        _request: &'a scylla::policies::load_balancing::RoutingInfo,
+        _cluster: &'a scylla::cluster::ClusterState,
+    ) -> scylla::policies::load_balancing::FallbackPlan<'a> {
+        Box::new(std::iter::empty())
+    }
+    fn name(&self) -> String {
+        "C07OnlyNode".to_string()
+    }
+}
+
+/// On every node's connection: a request whose caller gives up (40 ms) long before the node answers it (350 ms).
+async fn ghosts(session: &Session, text: &str) {
+    for n in nodes(7, 3) {
+        let mut g = Statement::new(ghost_text(text));
+        g.set_request_timeout(Some(Duration::from_millis(40)));
+        g.set_load_balancing_policy(Some(Arc::new(OnlyNode(n.host_id))));
+        let _ = session.query_unpaged(g, ()).await;
+    }
+}
+
 fn scenario_handler(script: Arc<Mutex<Script>>) -> Handler {
     Arc::new(move |req: &Request| {
         let mut s = script.lock().unwrap();
@@ -188,6 +225,19 @@ fn scenario_handler(script: Arc<Mutex<Script>>) -> Handler {
                 Action::Reply(Reply::Prepared { id: s.prep_id.clone(), result_metadata_id: None, pk_indexes: vec![], bind_cols: vec![], result_cols: v_cols(), ks: "ks".into(), table: "t".into() })
             }
             0x07 if req.query.as_deref() == Some(s.text.as_str()) => s.serve(req),
+            // the "ghost": another request on the same connections, answered long after its caller has given up
+            0x07 if req.query.as_deref() == Some(ghost_text(&s.text).as_str()) => Action::DelayMs(
+                350,
+                Box::new(Action::Reply(Reply::Rows {
+                    cols: v_cols(),
+                    ks: "ks".into(),
+                    table: "t".into(),
+                    rows: vec![vec![Some(777_777i32.to_be_bytes().to_vec())]],
+                    paging_state: None,
+                    no_metadata: false,
+                    new_metadata_id: None,
+                })),
+            ),
             0x0A if req.prepared_id.as_deref() == Some(&s.prep_id[..]) => s.serve(req),
             _ => Action::Reply(Reply::Void),
         }
@@ -317,6 +367,9 @@ async fn run_scenario(mock: &MockCluster, session: &Arc<Session>, sc: &Value) ->
     mock.clear_log();
     mock.set_handler(scenario_handler(script.clone()));
 
+    if sc["ghost"].as_u64() == Some(1) {
+        ghosts(session, &text).await;
+    }
     let obs = Arc::new(Mutex::new(Observed::default()));
     let mut task = tokio::spawn(consume(session.clone(), text, prepared, page_size, mode, k, obs.clone()));
     let joined = tokio::time::timeout(SCENARIO_WATCHDOG, &mut task).await;
@@ -341,7 +394,7 @@ async fn run_scenario(mock: &MockCluster, session: &Arc<Session>, sc: &Value) ->
     let mut s = script.lock().unwrap();
     s.frames.sort_by_key(|f| f["seq"].as_u64().unwrap_or(0));
     Ok(json!({
-        "id": id, "kind": sc["kind"], "consumer": sc["consumer"], "pages": sc["pages"], "states": sc["states"], "faults": sc["faults"],
+        "id": id, "kind": sc["kind"], "ghost": sc["ghost"].as_u64().unwrap_or(0), "consumer": sc["consumer"], "pages": sc["pages"], "states": sc["states"], "faults": sc["faults"],
         "start_err": o.start_err,
         "frames": s.frames,
         "prepares": s.prepares,
